@@ -1717,7 +1717,10 @@ def midi_oracle(case):
     from partitura import score as S
 
     notes = [tuple(x) for x in case["notes"]]
-    mid = build_midi(notes, case["ppq"], case["ntracks"], case["timesig"], case.get("off_as_on0", False))
+    if "tracks" in case:            # the file given message by message (stream midi_parse)
+        mid = build_midi_msgs(case["tracks"], case["ppq"])
+    else:
+        mid = build_midi(notes, case["ppq"], case["ntracks"], case["timesig"], case.get("off_as_on0", False))
     src, tmp = mid, None
     if case.get("from_file"):       # through a file on disk instead of the MidiFile object
         import tempfile
@@ -1725,6 +1728,25 @@ def midi_oracle(case):
         os.close(fd)
         mid.save(tmp)
         src = tmp
+    spy = case.get("_spy_rows")     # a list: filled with the rows of the note array the importer hands to estimate_spelling
+    A, orig = None, None
+    if spy is not None:
+        try:
+            import partitura.musicanalysis as A
+            orig = A.estimate_spelling
+
+            def _spy_spelling(note_info, *a, **k):
+                try:
+                    na = note_info
+                    ou = [f for f in ("onset_div", "onset_tick") if f in na.dtype.names][0]
+                    du = [f for f in ("duration_div", "duration_tick") if f in na.dtype.names][0]
+                    spy.append([(int(x[ou]), int(x["pitch"]), int(x[du])) for x in na])
+                except Exception:
+                    spy.append(None)
+                return orig(note_info, *a, **k)
+            A.estimate_spelling = _spy_spelling
+        except Exception:
+            A = None
     try:
         with _cpu_budget(2 * CPU_BUDGET_S, "load_score_midi"):
             sc = partitura.load_score_midi(src, part_voice_assign_mode=case["mode"],
@@ -1734,6 +1756,8 @@ def midi_oracle(case):
     except Exception as e:
         return "load_score_midi raised %s: %s" % (type(e).__name__, str(e)[:200]), None
     finally:
+        if A is not None and orig is not None:
+            A.estimate_spelling = orig
         if tmp is not None:
             try:
                 os.remove(tmp)
@@ -1884,6 +1908,199 @@ def run_midi(ctx):
     ctx.obligation("importer: the notes of load_score_midi's score carry exactly the file's pitches, onset by onset (pitch multiset at "
                    "the k-th distinct onset, for every k; %d files, all six part/voice modes, with and without voice and key estimation)"
                    % count, nviol == 0, "")
+
+
+# ----------------------------------------------------------------------------
+# 4b. MIDI import, the READER: files written message by message (Model/C17_MidiParse.v)
+
+MSG_OTHER = ["control_change", "program_change", "pitchwheel", "marker", "set_tempo", "aftertouch"]
+
+
+def build_midi_msgs(tracks, ppq):
+    """tracks: lists of [delta, kind, channel, note, velocity, other] with kind 0 = note_off, 1 = note_on, 2 = another
+    message (other names it) -> mido.MidiFile (in memory)."""
+    import mido
+
+    mid = mido.MidiFile(ticks_per_beat=ppq)
+    for msgs in tracks:
+        track = mido.MidiTrack()
+        for m in msgs:
+            dt, kind, ch, note, vel = m[:5]
+            other = m[5] if len(m) > 5 else None
+            if kind == 0:
+                track.append(mido.Message("note_off", note=note, velocity=vel, channel=ch, time=dt))
+            elif kind == 1:
+                track.append(mido.Message("note_on", note=note, velocity=vel, channel=ch, time=dt))
+            elif other == "marker":
+                track.append(mido.MetaMessage("marker", text="x", time=dt))
+            elif other == "set_tempo":
+                track.append(mido.MetaMessage("set_tempo", tempo=500000, time=dt))
+            elif other == "time_signature":
+                track.append(mido.MetaMessage("time_signature", numerator=vel, denominator=note, time=dt))
+            elif other == "program_change":
+                track.append(mido.Message("program_change", program=5, channel=ch, time=dt))
+            elif other == "pitchwheel":
+                track.append(mido.Message("pitchwheel", pitch=100, channel=ch, time=dt))
+            elif other == "aftertouch":
+                track.append(mido.Message("aftertouch", value=10, channel=ch, time=dt))
+            else:
+                track.append(mido.Message("control_change", control=7, value=100, channel=ch, time=dt))
+        mid.tracks.append(track)
+    return mid
+
+
+def gen_midi_msgs(rng, nnotes):
+    """-> (notes (onset, dur, pitch, track, channel), tracks of messages, features).  Written so that the file has an
+    unambiguous content: no note starts on a (track, channel, pitch) key that is sounding (ends touching starts allowed: the
+    end is written first), every note is ended; ends for keys that are not sounding ('orphans') and other messages are strewn in."""
+    ppq = rng.choice([4, 12, 48, 480])
+    unit = max(1, ppq // 4)
+    ntracks = rng.choice([1, 1, 2, 3])
+    chans = rng.choice([[0], [0, 1], [0, 1, 9], [3, 2], [15, 0, 7, 8]])
+    lo = rng.choice([21, 40, 55])
+    hi = min(108, lo + rng.choice([3, 7, 14, 40]))
+    feats = set()
+    notes, busy = [], {}
+
+    def free(tr, ch, p, o, d):
+        # closed intervals may touch only end-to-start with positive lengths on both sides (end written before start)
+        for s, e in busy.get((tr, ch, p), []):
+            if d == 0:
+                if s <= o <= e:
+                    return False
+            elif e == s:
+                if o <= s <= o + d:
+                    return False
+            elif not (o + d <= s or e <= o):
+                return False
+        return True
+
+    tries = 0
+    while len(notes) < nnotes and tries < 20 * nnotes:
+        tries += 1
+        o = rng.randrange(0, 3 * nnotes + 2) * unit
+        d = 0 if rng.random() < 0.15 else rng.choice([1, 1, 2, 3, 4, 8]) * unit
+        p = rng.randint(lo, hi)
+        tr, ch = rng.randrange(ntracks), rng.choice(chans)
+        if notes and rng.random() < 0.3:
+            # the same pitch at an overlapping time on ANOTHER channel of the same track (or another track)
+            o0, d0, p0, tr0, ch0 = rng.choice(notes)
+            o, p, tr = o0 + rng.choice([0, 0, unit]) if d0 > 0 else o0, p0, (tr0 if rng.random() < 0.8 else tr)
+            ch = rng.choice(chans)
+        if not free(tr, ch, p, o, d):
+            continue
+        busy.setdefault((tr, ch, p), []).append((o, o + d))
+        notes.append((o, d, p, tr, ch))
+    used = sorted({x[3] for x in notes})
+    notes = [(o, d, p, used.index(tr), ch) for o, d, p, tr, ch in notes]
+    busy = {(used.index(k[0]), k[1], k[2]): v for k, v in busy.items() if k[0] in used}
+    for a in range(len(notes)):
+        for b in range(a):
+            x, y = notes[a], notes[b]
+            if x[2] == y[2] and x[3] == y[3] and x[4] != y[4] and x[0] <= y[0] + y[1] and y[0] <= x[0] + x[1]:
+                feats.add("same_pitch_sounding_on_two_channels_of_one_track")
+    last = max(o + d for o, d, p, tr, ch in notes)
+    tracks = []
+    for t in range(len(used)):
+        ev = []
+        for k, (o, d, p, tr, ch) in enumerate(notes):
+            if tr != t:
+                continue
+            ev.append((o, 1, k, [1, ch, p, rng.choice([1, 64, 127]), None]))
+            if rng.random() < 0.4:
+                ev.append((o + d, 0 if d > 0 else 2, k, [1, ch, p, 0, None]))
+                feats.add("note_end_written_as_note_on_velocity_0")
+            else:
+                ev.append((o + d, 0 if d > 0 else 2, k, [0, ch, p, rng.choice([0, 64]), None]))
+            if d == 0:
+                feats.add("zero_length_note")
+        for _ in range(rng.choice([0, 0, 1, 2, 4])):         # orphans: an end for a key that is not sounding then
+            tt = rng.randrange(0, last + unit + 1)
+            ch, p = rng.choice(chans + [5]), rng.randint(lo, hi)
+            mine = [x for x in notes if x[3] == t]
+            if mine and rng.random() < 0.6:                  # on the key of a note of this track, before it starts / after it has ended
+                ch, p = rng.choice(mine)[4], rng.choice(mine)[2]
+                if rng.random() < 0.5:
+                    _, ch, p = rng.choice([(0, x[4], x[2]) for x in mine])
+            if all(not (s <= tt <= e) for s, e in busy.get((t, ch, p), [])):
+                ev.append((tt, 0, -1, [rng.choice([0, 1]), ch, p, 0, None]))
+                feats.add("end_of_a_note_that_is_not_sounding")
+                if any(e < tt for s, e in busy.get((t, ch, p), [])):
+                    feats.add("stray_end_on_a_key_whose_note_has_ended")
+        for _ in range(rng.choice([0, 1, 3, 6])):            # other messages: only their delta time counts
+            tt = rng.randrange(0, last + 2 * unit + 1)
+            ev.append((tt, rng.choice([0, 1, 2]), -2, [2, rng.choice(chans), 0, 0, rng.choice(MSG_OTHER)]))
+            feats.add("other_messages_between_the_notes")
+        ev.sort(key=lambda e: (e[0], e[1], e[2]))
+        msgs, now = [], 0
+        if t == 0 and rng.random() < 0.5:
+            msgs.append([0, 2, 0, 4, rng.choice([3, 4, 6]), "time_signature"])
+        for tt, _, _, m in ev:
+            msgs.append([tt - now] + m)
+            now = tt
+        tracks.append(msgs)
+    if len(used) > 1:
+        feats.add("several_tracks")
+    if len({(tr, ch) for o, d, p, tr, ch in notes}) > 1:
+        feats.add("several_track_channel_groups")
+    return notes, tracks, ppq, feats
+
+
+def run_midi_parse(ctx):
+    rng = ctx.rng
+    count = 60 if ctx.tier == "quick" else 1500
+    nviol, terms, kept, nobserved = 0, [], [], 0
+    for ci in range(count):
+        n = rng.choice([1, 2, 3, 4, 6, 9, 14, 22, 35])
+        notes, tracks, ppq, feats = gen_midi_msgs(rng, n)
+        case = {"kind": "midi", "notes": notes, "tracks": tracks, "ppq": ppq, "ntracks": len(tracks), "mode": rng.randrange(6),
+                "timesig": None, "estimate_voice_info": rng.random() < 0.2, "estimate_key": rng.random() < 0.2, "from_file": rng.random() < 0.2}
+        spy = []
+        case["_spy_rows"] = spy
+        bad, got = midi_oracle(case)
+        case.pop("_observed", None)
+        case.pop("_spy_rows", None)
+        ctx.evaluations += 1
+        ctx.count("midi_parse:files")
+        ctx.count("midi_parse:notes", len(notes))
+        ctx.count("midi_parse:messages", sum(len(t) for t in tracks))
+        for f in sorted(feats):
+            ctx.count("midi_parse:" + f)
+        rows = spy[0] if len(spy) == 1 and spy[0] is not None else None
+        if not bad and rows is not None:
+            nobserved += 1
+            ctx.count("midi_parse:note_array_observed(onset, pitch, duration of every note read)")
+            if sorted(rows) != sorted((o, p, d) for o, d, p, tr, ch in notes):
+                miss = sorted(set((o, p, d) for o, d, p, tr, ch in notes) - set(rows))
+                bad = ("the notes read from the file (the array handed to estimate_spelling) are not the notes written: %d read, %d written; "
+                       "written but not read (onset, pitch, duration): %r" % (len(rows), len(notes), miss[:4]))
+        elif not bad:
+            ctx.count("midi_parse:note_array_not_observable(not demanded)")
+        if bad:
+            nviol += 1
+            if nviol <= 3:
+                ctx.violation("midi: " + bad, case)
+            continue
+        if len(notes) >= 2 and len(feats) >= 2:
+            ctx.nontrivial(("midi_parse", notes, case["mode"]))
+        if len(notes) <= 6:
+            ctx.sample({"midi_parse_case": dict(case, imported_pitches_by_distinct_onset=got, note_array_rows=rows)}, limit=14)
+        cm = clist([clist([ctuple([cz(m[0]), cz(m[1]), cz(m[2]), cz(m[3]), cz(m[4])]) for m in t]) for t in tracks])
+        terms.append(ctuple([cz(case["mode"]), cm, clist([clist([cz(x) for x in ps]) for ps in got]),
+                             core.copt(rows, lambda rr: clist([ctuple([cz(a), cz(b), cz(c)]) for a, b, c in rr]))]))
+        kept.append(dict(case, imported_pitches_by_distinct_onset=got, note_array_rows=rows))
+    failing = _coq_failing(ctx, "midi_parse", "From PV Require Import Model.C17_MidiParse.", terms, "midi_parse_check", 12)
+    if failing is not None:
+        ctx.obligation("correspondence: load_score_midi on files written message by message = Model.C17_MidiParse (running time over all messages, "
+                       "sounding_notes keyed by note_hash(channel, note), note_on velocity 0 as end, ends of keys not sounding ignored, notes per "
+                       "(track, channel), keys sorted) in front of Model.C17_Midi: pitches of the score by onset rank on %d files, and the (onset, "
+                       "pitch, duration) rows of the note array handed to estimate_spelling on %d of them; theorems midi_written_note_is_read, "
+                       "midi_read_note_was_written" % (len(terms), nobserved), not failing, failing[:5])
+        for i in failing[:3]:
+            ctx.violation("midi: the notes the importer reads from the file's messages and the model of the reader disagree", kept[i])
+    ctx.obligation("importer, reader: every note written into a file as note-on ... note-end (same pitch on several channels at once, zero-length "
+                   "notes, ends written as note_on velocity 0, stray ends and other messages in between) is in the imported score, onset by onset, and "
+                   "in the note array the importer builds (%d files)" % count, nviol == 0, "")
 
 
 # ----------------------------------------------------------------------------
@@ -2324,6 +2541,11 @@ def run(ctx):
                 "midi: files built with mido from such arrays and from sweep points (pitches 21..108, 0..30% zero-length notes), 1..3 tracks, "
                 "channels 0/1/9, note ends as note_off or note_on velocity 0, MidiFile object or file on disk, all six part-voice modes, with/without "
                 "voice and key estimation; compared: the pitch multiset at the k-th distinct onset.  "
+                "midi_parse: 60 (thorough 1500) files written MESSAGE BY MESSAGE: 1..35 notes on 1..3 tracks, five channel sets, registers of 3..40 "
+                "semitones inside 21..108, 30% of the notes copying pitch and time of an earlier note onto another channel, 15% zero-length, each end drawn "
+                "as note_off or note_on velocity 0, stray ends for keys not sounding, control/program/pitchwheel/aftertouch/marker/set_tempo/time_signature "
+                "messages in between; no note starts on a sounding key and every note ends; compared: pitches by onset rank, the (onset, pitch, duration) "
+                "rows of the note array the importer hands to estimate_spelling (observed), both against the reader model on the message lists.  "
                 "orders: 300 (thorough 5000) dense chromatic passages in which, from the tenth note on, a third of the notes are doubled by notes of the "
                 "same onset and pitch and another duration (zero included), each in the canonical order and in up to seven others -- sorted by (onset, "
                 "pitch) with the ties by decreasing duration / in a drawn order / one late tie exchanged, sorted by onset only (pitch decreasing / drawn), "
@@ -2352,7 +2574,8 @@ def run(ctx):
                    "of the VoSA search only pairwise_cost and est_best_connections are modelled (Model/C17_Contig.v); the rest (contig "
                    "segmentation, voice managers, crystallisation loop, grace notes) is the oracle of the outer-layer model, its observed result "
                    "the oracle value; which chord member is handed to VoSA is read off the observed call",
-                   "mido (building the MIDI files); the harness' grouping of the notes it wrote by (track, channel)"]
+                   "mido (building the MIDI files, decoding them for the importer); the harness' grouping of the notes it wrote by (track, channel) "
+                   "in the midi stream; the wrapper around partitura.musicanalysis.estimate_spelling observing the importer's note array in the midi_parse stream"]
     ctx.assumptions = ["float onsets/durations are dyadic rationals; a case's times are multiplied by one common power of two before "
                        "they reach the integer model (order, equality and ratios preserved)",
                        "key: cases whose two largest correlations differ by less than 1e-9 (1e-4 when the float32 duration sums are "
@@ -2364,11 +2587,11 @@ def run(ctx):
     ctx.count("reflection:ps13 tables from " + P.get("tables_from", "?"))
     if P.get("tables_agree_with_api_probe") is False:
         ctx.count("reflection:tables probed through estimate_spelling differ from those probed in compute_morph_array(not demanded)")
-    ok, why = ctx.coq_props(expect_min=62)
+    ok, why = ctx.coq_props(expect_min=72)
     nv0 = len(ctx.violations) + sum(ctx.known_hits.values())
     ctx.log("props: %s" % ("ok" if ok else "FAILED"))
     note_table_oracle(ctx, P["steps"])
-    for name, fn in (("spelling", run_spelling), ("spelling_orders", run_spelling_orders), ("chroma", run_chroma), ("voices", run_voices), ("contig", run_contig), ("key", lambda c: run_key(c, K)), ("key_scale", lambda c: run_key_scale(c, K)), ("midi", run_midi), ("histories", lambda c: run_histories(c, K))):
+    for name, fn in (("spelling", run_spelling), ("spelling_orders", run_spelling_orders), ("chroma", run_chroma), ("voices", run_voices), ("contig", run_contig), ("key", lambda c: run_key(c, K)), ("key_scale", lambda c: run_key_scale(c, K)), ("midi", run_midi), ("midi_parse", run_midi_parse), ("histories", lambda c: run_histories(c, K))):
         t0 = time.time()
         fn(ctx)
         ctx.log("%s stream done in %.1fs" % (name, time.time() - t0))
